@@ -172,7 +172,7 @@ class SimulationProblem(DataStoreAccessor):
         self.__extra_variables_symbols = [v.symbol for v in self.__extra_variables]
 
         # Store the types in an AliasDict
-        self.__python_types = AliasDict(self.alias_relation)
+        self.__python_types = AliasDict(self.alias_relation, signed_values=False)
         model_variable_types = [
             "states",
             "der_states",
